@@ -1769,6 +1769,25 @@ class Summariser:
                 if term:
                     return events, True, ret
                 continue
+            if isinstance(st, ast.Try) and rest and not st.finalbody and not getattr(st, "_continued", False):
+                arms = [list(st.body) + list(st.orelse)] + [list(h.body) for h in st.handlers]
+                leaves = [_arm_exits(a) for a in arms]
+                if any(some for some, _ in leaves) and not all(every for _, every in leaves):
+                    # some arms return, others fall through to what follows: what follows is continued inside the arms
+                    # that reach it (after the handler's own statements; after the body in the unprotected else clause)
+                    handlers = []
+                    for h, (some, every) in zip(st.handlers, leaves[1:]):
+                        h2 = ast.ExceptHandler(type=h.type, name=h.name, body=list(h.body) + ([] if every else list(rest)))
+                        ast.copy_location(h2, h)
+                        h2.end_lineno = getattr(h, "end_lineno", h.lineno)
+                        handlers.append(h2)
+                    st2 = ast.Try(body=list(st.body), handlers=handlers,
+                                  orelse=list(st.orelse) + ([] if leaves[0][1] else list(rest)), finalbody=[])
+                    ast.copy_location(st2, st)
+                    st2.end_lineno = getattr(st, "end_lineno", st.lineno)
+                    st2._continued = True
+                    term, ret = self.try_(st2, events)
+                    return events, term, ret
             if isinstance(st, ast.Try):
                 term, ret = self.try_(st, events)
                 if term:
